@@ -364,6 +364,65 @@ def r3(ctx):
 
 
 # ------------------------------------------------------------------------------------------ R4
+def _to_address_choice(ctx, rm, gen):
+    ci = rm.get_class("HeaderFactory")
+    fn = ci.methods["create_from_message"]
+    ev = B.Ev(ctx.repo, rm, ci)
+    ev.opaque_fields = True
+    params = [a.arg for a in fn.args.args]
+    env = {"self": B.Sym("self"), params[1]: B.Sym("message"), params[2]: B.Sym("message_length", "int")}
+    try:
+        out = ev.run(fn.body, env, rm, B.TRUE)
+    except B.Unsupported as ex:
+        raise AnalysisError(f"{rm.relpath}: HeaderFactory.create_from_message left the analysable fragment: {ex}")
+    alts = []
+    for cond, val in out["returns"]:
+        if not isinstance(val, B.Obj) or "to_address" not in val.fields:
+            return False, f"returns {val!r}"
+        ta = val.fields["to_address"]
+        for c2, v2 in (ta.alts if isinstance(ta, B.Choice) else [(B.TRUE, ta)]):
+            alts.append((B.c_and(cond, c2), v2))
+    # first-match semantics: evaluate under id == 0x1F and id != 0x1F
+    def pick(is_ext: bool):
+        for c, v in alts:
+            r = _cond_under(c, is_ext)
+            if r is True:
+                return v
+            if r is None:
+                return None
+        return None
+
+    ext, base = pick(True), pick(False)
+    okv = lambda v, n: isinstance(v, B.BV) and v.is_const() and v.value() == n
+    ok = okv(ext, 0x90) and okv(base, 0x80)
+    return ok, f"extended -> {ext!r}, otherwise -> {base!r} (alternatives: {alts!r})"[:300]
+
+
+def _cond_under(c, is_ext: bool):
+    """Three-valued evaluation of an engine condition when `message.message_id == 0x1F` is known to be is_ext."""
+    if c == B.TRUE:
+        return True
+    if c == B.FALSE:
+        return False
+    if isinstance(c, tuple):
+        if c[0] == "and":
+            vals = [_cond_under(x, is_ext) for x in c[1:]]
+            if any(v is False for v in vals):
+                return False
+            return True if all(v is True for v in vals) else None
+        if c[0] == "or":
+            vals = [_cond_under(x, is_ext) for x in c[1:]]
+            if any(v is True for v in vals):
+                return True
+            return False if all(v is False for v in vals) else None
+        if c[0] == "not":
+            v = _cond_under(c[1], is_ext)
+            return None if v is None else (not v)
+        if c[0] == "symeq" and len(c) == 3 and {c[1], c[2]} == {"message.message_id", "31"}:
+            return is_ext
+    return None
+
+
 def r4(ctx):
     R = "C04.R4"
     for gen in ("at4", "at5"):
@@ -385,29 +444,9 @@ def r4(ctx):
         kw = {k.arg: k.value for k in c.keywords}
         fa = ctx.repo.try_fold(rm, f.expand(kw["from_address"], n)) if "from_address" in kw else None
         ctx.check(fa == 0xB0, R, f"{gen}:header:from_address", rm, c, "0xB0 (client)", repr(fa))
-        ta = kw.get("to_address")
-        ok = False
-        found = norm_text(ta) if ta is not None else "missing"
-        if isinstance(ta, ast.Name):
-            defs = f.defs_reaching(ta.id, n)
-            vals = {}
-            for d in defs:
-                if d.kind == "stmt" and isinstance(d.ast, ast.Assign):
-                    vals[d.id] = ctx.repo.try_fold(rm, d.ast.value)
-            tests = f.tests(lambda e: isinstance(e, ast.Compare) and len(e.ops) == 1 and isinstance(e.ops[0], ast.Eq))
-            ext_ok = False
-            for t in tests:
-                l, r = t.ast.left, t.ast.comparators[0]
-                idv = ctx.repo.try_fold(rm, r) if ctx.repo.try_fold(rm, r) is not None else ctx.repo.try_fold(rm, l)
-                other = l if ctx.repo.try_fold(rm, r) is not None else r
-                src = f.expand_text(other, t)
-                if idv == 0x1F and src == f"{f.params[1]}.message_id":
-                    ext = [d for d in defs if f.cfg.dominates(f.branch(t, "true").id, d.id)]
-                    base = [d for d in defs if not f.cfg.dominates(f.branch(t, "true").id, d.id)]
-                    if len(ext) == 1 and len(base) == 1 and vals.get(ext[0].id) == 0x90 and vals.get(base[0].id) == 0x80 and f.cfg.dominates(base[0].id, t.id):
-                        ext_ok = True
-            ok = ext_ok
-            found = f"values {sorted(v for v in vals.values() if v is not None)}" + ("" if ext_ok else "; selection is not `message_id == 0x1F -> 0x90 else 0x80`")
+        # to_address as a function of the message id: abstract evaluation of the method (if / conditional expression / case
+        # table / helper - whatever spelling) must give 0x90 exactly under `message.message_id == 0x1F` and 0x80 otherwise
+        ok, found = _to_address_choice(ctx, rm, gen)
         ctx.check(ok, R, f"{gen}:header:to_address", rm, c, "0x90 exactly when message.message_id == 0x1F (extended), otherwise 0x80", found)
         for fld, want in (("message_id", f"{f.params[1]}.message_id"), ("message_length", f.params[2])):
             v = kw.get(fld)
